@@ -17,6 +17,7 @@ From SCC Require Import Model.Check Model.Fun2Core Model.Backend Model.Focus Mod
 From SCC Require Import Proof.SubstGraph Proof.CodegenTotal Proof.CodegenX86 Proof.CodegenA64 Proof.CodegenRV
      Proof.AxToLin Proof.LinearizeProof Proof.ShrinkProof Proof.ShrinkSem Proof.ShrinkTyping Proof.WtPreserve Proof.FocusExamples Proof.WtExamples.
 From SCC Require Import Sem.FsFrag2 Proof.ShrinkExample2 Proof.ShrinkTyTop.
+From SCC Require Import Model.Fun2CoreTyGuard Proof.Fun2CoreTyRefute.
 Import ListNotations.
 
 (* ======================================================================================== *)
@@ -79,6 +80,21 @@ Theorem C12_fun2core_typing_refuted :
     shadowing_risk_prog p = true /\ barendregt p = false.
 Proof. exact fun2core_typing_refuted_lemma. Qed.
 Print Assumptions C12_fun2core_typing_refuted.
+
+(* REFUTED a second time, without capture and without a call of main (finding main-non-integer-result):
+   `data Bar { B }  def main(): Bar { B }` is accepted - Program::check never constrains the return type of
+   main - and compile_main types the operand of the final `exit` with the annotation of the body:
+   < B | Bar | mu~ x0. exit x0 >  with x0 : Bar in an integer position.  The program satisfies the Barendregt
+   condition (so H_fun2core_wt / fun2core_preserves_typing as stated above are FALSE as well), has no
+   shadowing risk and calls no main; it is outside prog_tyguard (the body of main must have type i64). *)
+Theorem C12_fun2core_main_result_refuted :
+  exists (src : fprog) (p : fcprog) (c : cprog),
+    has_type_b src = true /\ Check.check src = COk p /\ annotated_fcprog p = true /\
+    compile_prog p = Fun2Core.Ok c /\ wt_core c = false /\
+    shadowing_risk_prog p = false /\ calls_main_prog p = false /\ barendregt p = true /\
+    prog_tyguard p = false.
+Proof. exact fun2core_main_result_refuted_lemma. Qed.
+Print Assumptions C12_fun2core_main_result_refuted.
 
 (* ======================================================================================== *)
 (* Core -> focused Core                                                                     *)
